@@ -77,10 +77,21 @@ def sortEntries (es : List Entry) : List Entry := es.mergeSort (fun a b => decid
 /-- `slices.SortFunc(gaps, cmp firstOffset)`. -/
 def sortGaps (gs : List Range) : List Range := gs.mergeSort (fun a b => decide (a.first ≤ b.first))
 
-/-- `buildAckRanges(entries, gaps)`: the user-entry ranges with the sorted gap ranges merged in by offset, the
+/-- The gap dedupe loop over the sorted gaps (repair 4fd6241): `kept[len(kept)-1]` is the head of the list here; a
+gap that starts at or below the end of the last kept gap extends it (`if g.lastOffset > last.lastOffset`) and is
+dropped, any other gap becomes the last kept one. -/
+def mergeGaps : List Range → List Range
+  | [] => []
+  | [g] => [g]
+  | g :: g' :: gs =>
+    if g'.first ≤ g.last then mergeGaps ({ g with last := if g'.last > g.last then g'.last else g.last } :: gs)
+    else g :: mergeGaps (g' :: gs)
+termination_by l => l.length
+
+/-- `buildAckRanges(entries, gaps)`: the user-entry ranges with the sorted, merged gap ranges merged in by offset, the
 remaining gap ranges last, each coalesced onto the last range so far. Result in Go order, and `hasRenew`. -/
 def buildAckRanges (es : List Entry) (gs : List Range) : List Range × Bool :=
-  let r := entryLoop (sortEntries es) (-1) [] (sortGaps gs) false
+  let r := entryLoop (sortEntries es) (-1) [] (mergeGaps (sortGaps gs)) false
   ((r.2.1.foldl coalesceRev r.1).reverse, r.2.2)
 
 /-! ### filterStaleEntries (one drain) -/
